@@ -11,24 +11,33 @@
 (* the expectation of each step:  "fresh" (equal to the same call on freshly built objects),  *)
 (* [event k] (the k-th element of the fresh lexeme stream) or "unspec".                       *)
 EXTENDS Integers, Sequences, FiniteSets, TLC, Json, JsonEvents
-CONSTANTS MaxLen, Export
+CONSTANTS MaxLen, Export, SharedTypeCompiledInPlace, World            \* World "main" | "shared" (two roots that were given the same user-type OBJECT)
 
-Schemas == {"s1", "s2", "s3", "s4"}            \* valid with types / invalid / optional recursion / two overlapping key shortcuts
-FreshDocs == {"d1", "d2", "d3", "d4"}         \* built anew for every validate: accepted / two rejected (complementary missing keys) / malformed
-Docs == {"x1", "x2", "x3"}                    \* persistent Document objects: valid / malformed / valid + trailing garbage
+Shared == World = "shared"
+\* main:   valid with types / invalid / optional recursion / two overlapping key shortcuts
+\* shared: s5 and s6 hold the same object @item = { // {allOf: "@base"} "id": 1 }; only s6 was given @base, so s5 fails to compile
+Schemas == IF Shared THEN {"s5", "s6"} ELSE {"s1", "s2", "s3", "s4"}
+\* built anew for every validate. main: accepted / two rejected (complementary missing keys) / malformed; shared: inherited key missing / present
+FreshDocs == IF Shared THEN {"d5", "d6"} ELSE {"d1", "d2", "d3", "d4"}
+Docs == IF Shared THEN {} ELSE {"x1", "x2", "x3"}      \* persistent Document objects: valid / malformed / valid + trailing garbage
 SchemaOps == {"check", "len", "example", "getast", "used"}
 Ops == {[op |-> o, obj |-> s, arg |-> ""] : o \in SchemaOps, s \in Schemas}
   \cup {[op |-> "validate", obj |-> s, arg |-> d] : s \in Schemas, d \in FreshDocs}
   \cup {[op |-> o, obj |-> x, arg |-> ""] : o \in {"dcheck", "dlen", "dnext", "ddrain"}, x \in Docs}
   \cup {[op |-> "dvalidate", obj |-> "s1", arg |-> x] : x \in Docs}
-  \cup {[op |-> o, obj |-> "e1", arg |-> ""] : o \in {"echeck", "evalues", "east", "elen"}}
-  \cup {[op |-> o, obj |-> "r1", arg |-> ""] : o \in {"rpattern", "rexample", "rlen"}}
+  \cup (IF Shared THEN {} ELSE {[op |-> o, obj |-> "e1", arg |-> ""] : o \in {"echeck", "evalues", "east", "elen"}})
+  \cup (IF Shared THEN {} ELSE {[op |-> o, obj |-> "r1", arg |-> ""] : o \in {"rpattern", "rexample", "rlen"}})
 
 \* cursor[x] : number of lexemes already delivered by NextLexeme, or -1 when the position is undefined
 \* once[o]   : which once-caches of object o are filled (I layer bookkeeping)
-VARIABLES cursor, once, hist
-vars == <<cursor, once, hist>>
-Init == cursor = [x \in Docs |-> 0] /\ once = {} /\ hist = <<>>
+\* I layer, switch SharedTypeCompiledInPlace (the pinned tree): compiling a root expands the allOf rule of an added type IN the type object
+\* and removes the rule. item = "extended" once a root that has @base compiled; a root whose own first compile comes later sees a type
+\* without allOf - so s5, which lacks @base, compiles - and keeps that outcome in its once-cache (deviant).
+VARIABLES cursor, once, hist, item, deviant
+vars == <<cursor, once, hist, item, deviant>>
+CompileOps == {"check", "validate", "example", "getast"}       \* the public calls that run the once-guarded compile (UsedUserTypes and Len only load)
+Compiled(s) == \E op \in CompileOps : <<s, op>> \in once
+Init == cursor = [x \in Docs |-> 0] /\ once = {} /\ hist = <<>> /\ item = "raw" /\ deviant = {}
 
 \* the persistent documents as token lists (spelling in hex); their lexeme streams follow from JsonEvents
 T(c, h, n) == [c |-> c, h |-> h, n |-> n]
@@ -52,9 +61,16 @@ Expect(o) ==
          ELSE [kind |-> "drain", k |-> k, evs |-> SubSeq(Events(DocToks[o.obj]), k + 1, NEvents(o.obj)), term |-> Terminal[o.obj]]
     [] o.op = "dvalidate" -> IF cursor[o.arg] = 0 THEN [kind |-> "fresh", k |-> 0] ELSE [kind |-> "unspec", k |-> 0]   \* a partly read document: not specified
     [] OTHER -> [kind |-> "fresh", k |-> 0]
+\* does the I layer (with the switch on) predict that this call differs from the same call on fresh objects?
+FirstCompile(o) == o.op \in CompileOps /\ ~Compiled(o.obj)
+Deviates(o) == /\ SharedTypeCompiledInPlace /\ Shared /\ o.op \in CompileOps
+               /\ \/ o.obj \in deviant
+                  \/ (o.obj = "s5" /\ FirstCompile(o) /\ item = "extended")
 Step(o) ==
-  /\ hist' = Append(hist, [o |-> o, want |-> Expect(o)])
+  /\ hist' = Append(hist, [o |-> o, want |-> Expect(o), dev |-> Deviates(o)])
   /\ once' = once \cup {<<o.obj, o.op>>}
+  /\ item' = IF Shared /\ o.obj = "s6" /\ FirstCompile(o) THEN "extended" ELSE item
+  /\ deviant' = IF Shared /\ o.obj = "s5" /\ FirstCompile(o) /\ item = "extended" THEN deviant \cup {"s5"} ELSE deviant
   /\ cursor' = CASE o.op = "dnext" -> [cursor EXCEPT ![o.obj] = IF @ < 0 THEN -1 ELSE @ + 1]
                  [] o.op = "ddrain" -> [cursor EXCEPT ![o.obj] = IF @ < 0 THEN -1 ELSE NEvents(o.obj) + 1]
                  [] o.op \in {"dcheck", "dlen"} -> [cursor EXCEPT ![o.obj] = 0]       \* both rewind before and after
@@ -65,6 +81,9 @@ Spec == Init /\ [][Next]_vars
 \* I-layer invariant: a filled once-cache never changes what a call returns - in the model the result function has no
 \* history argument at all, so this is the statement that the model needs none:
 NoHistoryNeeded == \A i \in DOMAIN hist : hist[i].want.kind \in {"fresh", "event", "unspec", "eof", "error", "drain"}
+\* with the switch off nothing is ever predicted to deviate (the requirement); with it on only s5 can, and only after s6 compiled
+NoDeviation == \A i \in DOMAIN hist : ~hist[i].dev
+DeviationOnlyS5 == \A i \in DOMAIN hist : hist[i].dev => hist[i].o.obj = "s5"
 Emit == (Export /\ Len(hist) = MaxLen) => PrintT("@@CASE " \o ToJson([history |-> hist]))
 ASSUME Export => PrintT("@@DOCS " \o ToJson([toks |-> DocToks, tail |-> DocTail, terminal |-> Terminal]))
 =====================================================================================
